@@ -336,7 +336,12 @@ example : finishOffsetT [0x68, 0xC3, 0xA9, 0x6C, 0x6C, 0x6F] (2 ^ 63 - 1) = ⟨s
 /-! ### the offset loop without its two protections
 
   `findOffNoExitBody` is the loop body with the `if sz == 0 { return }` deleted.  Decoding the empty string yields size
-  0, so `n` stays at `len(s)`: called without the pre-check `i > len(s)` the loop would spin `i` times. -/
+  0, so `n` stays at `len(s)`: called without the pre-check `i > len(s)` the loop would spin `i` times.
+
+  `startOffsetMutantT` below deletes BOTH protections AT ONCE (the pre-check string.go:130/:218 and the `sz == 0` exit).
+  The two SINGLE deletions — each of which leaves the loop bounded by the string, and one of which (the exit) changes the
+  result of `find_first('é', '', `2`)` — are `startOffsetNoPreT` / `startOffsetNoExitT` in
+  `Jmes/Proofs/C09EMutants.lean` (`find_offset_each_guard_suffices`). -/
 
 /-- string.go:134 WITHOUT `if sz == 0 { return nil, nil }` -/
 def findOffNoExitBody (s : Bytes) (n : Nat) : T (Ctl Nat) :=
@@ -352,11 +357,14 @@ theorem findOffNoExit_cost (s : Bytes) : ∀ (i n : Nat), (forBrkT (findOffNoExi
     rw [forBrkT_succ_snd]
     simp only [findOffNoExitBody, pure_fst, pure_snd, ih]; omega
 
-/-- the conversion of `start` with NEITHER the pre-check NOR the exit: -/
+/-- the conversion of `start` with NEITHER the pre-check NOR the exit — BOTH protections deleted together (for each
+    deleted alone see `C09E.startOffsetNoPreT`, `C09E.startOffsetNoExitT`): -/
 def startOffsetMutantT (s : Bytes) (i : Int) : T (Ctl Nat) :=
   if i < 0 then pure (.next 0) else forBrkT (findOffNoExitBody s) i.toNat 0
 
-/-- … its cost is the magnitude of `i`: no bound in the size of the string exists -/
+/-- … its cost is the magnitude of `i`: no bound in the size of the string exists (the witness here is the empty
+    subject; `C09E.startOffsetMutantT_unbounded_nonempty` has the fixed non-empty subject "a", and
+    `C09E.startOffsetMutantT_snd` the exact cost `i` on every string) -/
 theorem startOffsetMutantT_unbounded :
     ¬ ∃ c : Nat, ∀ (s : Bytes) (i : Int), (startOffsetMutantT s i).2 ≤ c * (s.length + 1) := by
   intro ⟨c, h⟩
